@@ -107,6 +107,9 @@ func genMixedTx(rng *rand.Rand, g *GenesisSpec) Op {
 		if rng.IntN(12) == 0 {
 			op.To = pick(rng, "mod:evm", "mod:evm", "mod:fee_collector", "mod:distribution") // value sent to a module account
 		}
+		if rng.IntN(10) == 0 {
+			op.To = fmt.Sprintf("val%d", rng.IntN(maxInt(g.Validators, 1))) // a validator's operator account: the coinbase of the blocks it proposes
+		}
 	case k < 26:
 		op.To, op.Data, op.Gas = "c:store", hexWord(rng.IntN(5)), pick(rng, "i+50000", "i+100000", "i+30000")
 		op.Val = pick(rng, "0", "0", "7")
@@ -126,7 +129,7 @@ func genMixedTx(rng *rand.Rand, g *GenesisSpec) Op {
 		op.Data = "{c:" + pick(rng, "sd", "sd2", "sd3") + "}" + hexWord(pick(rng, 0, 1000, 1000000)) + hexWord(pick(rng, 2, 3, 4)) + "{" + pick(rng, other, "c:store", "c:rep") + "}"
 	case k < 62:
 		op.To, op.Gas = "c:sd", "i+80000"
-		op.Data = "{" + pick(rng, other, fmt.Sprintf("fresh%d", rng.IntN(4)), "c:store", "mod:evm") + "}"
+		op.Data = "{" + pick(rng, other, fmt.Sprintf("fresh%d", rng.IntN(4)), "c:store", "mod:evm", fmt.Sprintf("val%d", rng.IntN(maxInt(g.Validators, 1)))) + "}"
 		op.Val = pick(rng, "0", "3")
 	case k < 68:
 		op.To, op.Gas = "c:factory", "i+400000"
@@ -155,7 +158,7 @@ func genMixedTx(rng *rand.Rand, g *GenesisSpec) Op {
 		op.Gas = "i+200000"
 	case k < 80:
 		op.To, op.Gas = "c:proxy", "i+200000"
-		op.Data = "{" + other + "}" + hexWord(pick(rng, 0, 1, 1000))
+		op.Data = "{" + pick(rng, other, other, fmt.Sprintf("val%d", rng.IntN(maxInt(g.Validators, 1)))) + "}" + hexWord(pick(rng, 0, 1, 1000))
 	case k < 83: // stale / future nonce
 		op.To, op.Gas = other, "i+1000"
 		op.Nonce = pick(rng, "cur-1", "cur+1", "cur+5")
@@ -167,7 +170,7 @@ func genMixedTx(rng *rand.Rand, g *GenesisSpec) Op {
 		op.To, op.Gas = other, pick(rng, "i-1", "i-1000", "20999")
 		op.Mut = "lowgas"
 	case k < 89: // value above balance: consensus error inside the transition
-		op.To, op.Gas, op.Val = other, "i+1000", "999999999999999999999999999"
+		op.To, op.Gas, op.Val = other, pick(rng, "i+1000", "i+1000", "i+3000000", "i+50000000"), "999999999999999999999999999" // (also with a gas limit above the block gas limit)
 	case k < 91:
 		op.To, op.Gas = other, "i+1000"
 		op.Mut = pick(rng, "chainid", "unprotected", "wrongkey", "wrongfrom")
@@ -240,4 +243,11 @@ func init() {
 	for _, p := range []string{"C04", "C05", "C13", "C06"} {
 		Arms[p] = &Arm{Gen: genMixed(p), Run: runMixed}
 	}
+}
+
+func maxInt(a, b int) int {
+	if a > b {
+		return a
+	}
+	return b
 }
